@@ -8,6 +8,7 @@ import itertools
 from vf import core, smt, kernels
 from vf.core import Check
 from vf.poly import PolyLower, FIELD_SUMM, val_term
+from vf.dag import varid as varid_, ensure_vars
 from vf.params import *
 
 HARNESS = ['root_intrinsics.go', 'root_element.go']
@@ -59,10 +60,11 @@ def run(tier, seed, ck=None):
                   'contracts of field.Element methods (C12); an identity over Z[constants] holds in F_p']
     ck.assumptions += ['coordinates are arbitrary field values (the identities do not even need the curve equation)']
     ck.bounds.update({'operands': 'all coordinate 6-tuples as ring elements', 'aliasing': 'distinct / argument is receiver / nil'})
-    kernels.prove(ck, 'field', ['Mul', 'Square', 'Add', 'Sub', 'Opp', 'Nonzero', 'Selectznz'], tier)
+    from props import C12
+    C12.run(tier, seed, ck)   # contracts of the field.Element methods used as summaries are re-proved on the current tree
 
-    def replay_battery(key, why):
-        path = ck.save_replay({'property': 'C02', 'cases': [{'kind': 'el-battery', 'op': 'group', 'n': ck.seed}]})
+    def replay_battery(key, why, extra=()):
+        path = ck.save_replay({'property': ck.pid, 'cases': list(extra) + [{'kind': 'el-battery', 'op': 'group', 'n': ck.seed}]})
         ok, out = core.go_test(path)
         if not ok and 'MISMATCH' in out:
             ck.violation(key, '%s: %s' % (why, [l.strip() for l in out.splitlines() if 'MISMATCH' in l][:1]), path)
@@ -73,31 +75,73 @@ def run(tier, seed, ck=None):
         for al in (0, 1, 2):
             r = R_['op2_%d_%d' % (op, al)]
             tag = 'C02.%s.alias%d' % (nm, al)
-            ok = len(r.paths) == 1 and r.paths[0]['end'] == 'return'
-            ck.ground(tag + '.shape', 'single returning path: no operand-dependent branch, no panic', ok, str([(p['end'], p.get('panic')) for p in r.paths]))
+            ok = len(r.paths) >= 1 and all(p_['end'] == 'return' for p_ in r.paths)
+            ck.ground(tag + '.shape', 'every path returns: no panic (%d path%s%s)' % (len(r.paths), '' if len(r.paths) == 1 else 's',
+                      '' if len(r.paths) == 1 else ': the code branches on operand values, each branch is checked under its path condition'), ok,
+                      str([(p_['end'], p_.get('panic') or p_.get('err')) for p_ in r.paths][:3]))
             if not ok:
                 continue
-            p = r.paths[0]
-            o = p['obs']
-            ck.ground(tag + '.ret', 'returns the receiver', r.nodes[o['same']['n']].get('v') == '1')
-            if al == 2:
-                ck.ground(tag + '.nil', 'nil argument leaves the receiver unchanged', all(o['P.' + c]['f'] == o['P0.' + c]['f'] for c in 'xyz') and not p['writes'])
-                continue
-            low = PolyLower(r)
-            got = coords(low, o, 'P')
-            P0 = coords(low, o, 'P0')
-            Q = coords(low, o, 'Q') if al == 0 else P0
-            if al == 0:
-                ck.ground(tag + '.frame', 'argument element is never written', not p['writes'], str(p['writes'][:1]))
-            X2, Y2, Z2 = Q
-            if op == 1:
-                Y2 = '(- %s)' % Y2
-            ref = rcb_add(P0[0], P0[1], P0[2], X2, Y2, Z2)
-            goals = [(tag + '.%s3' % c, '%s: %s-coordinate equals the complete-addition closed form (polynomial identity over Z)' % (nm, c),
-                      '(assert (not (= %s %s)))' % (g, w)) for c, g, w in zip('XYZ', got, ref)]
-            ans = ck.prove_batch(low.all(), goals, timeout=60)
-            if 'sat' in ans:
-                replay_battery('group:' + nm, '%s differs from the complete addition formula' % nm)
+            for p in r.paths:
+                o = p['obs']
+                pt = tag if len(r.paths) == 1 else '%s.path%d' % (tag, p['id'])
+                ck.ground(pt + '.ret', 'returns the receiver', r.nodes[o['same']['n']].get('v') == '1')
+                if al == 2:
+                    ck.ground(pt + '.nil', 'nil argument leaves the receiver unchanged', all(o['P.' + c]['f'] == o['P0.' + c]['f'] for c in 'xyz') and not p['writes'])
+                    continue
+                low = PolyLower(r)
+                got = coords(low, o, 'P')
+                P0 = coords(low, o, 'P0')
+                Q = coords(low, o, 'Q') if al == 0 else P0
+                if al == 0:
+                    ck.ground(pt + '.frame', 'argument element is never written', not p['writes'], str(p['writes'][:1]))
+                X2, Y2, Z2 = Q
+                if op == 1:
+                    Y2 = '(- %s)' % Y2
+                ref = rcb_add(P0[0], P0[1], P0[2], X2, Y2, Z2)
+                pre = low.all()
+                limbvars = []
+                if p['pc']:
+                    # a branch on operand values: its condition is over Montgomery limbs; link limbs and field value by the
+                    # two facts a correct fast path may rely on (the representation is injective): limbs = M(1) <=> value = 1, limbs = 0 <=> value = 0
+                    low.emit(p['pc'])
+                    links = []
+                    for fe, ids in list(low.invars.items()):
+                        pass
+                    for nm_ in ('p', 'q'):
+                        for cc in 'xyz':
+                            ids = [varid_(r, '%s%s%d' % (nm_, cc, j)) for j in range(4)]
+                            if any(i is not None and i in low.done for i in ids):
+                                fe = low.fe(nm_ + cc)
+                                lv, _ = ensure_vars(r, low, ['%s%s%d' % (nm_, cc, j) for j in range(4)])
+                                limbvars.append((nm_ + cc, lv))
+                                one = limbs(R % P)
+                                links.append('(assert (= (and %s) (= %s 1)))' % (' '.join('(= %s (_ bv%d 64))' % (l, o_) for l, o_ in zip(lv, one)), fe))
+                                links.append('(assert (= (and %s) (= %s 0)))' % (' '.join('(= %s (_ bv0 64))' % l for l in lv), fe))
+                    pre = low.all() + '\n' + '\n'.join(links) + '\n' + '\n'.join('(assert n%d)' % c_ for c_ in p['pc'])
+                    ck.prove(pt + '.reach', 'branch reachable', pre, expect='sat', timeout=30)
+                goals = [(pt + '.%s3' % c, '%s: %s-coordinate equals the complete-addition closed form (polynomial identity over Z%s)' % (nm, c, ', under the branch condition' if p['pc'] else ''),
+                          '(assert (not (= %s %s)))' % (g, w)) for c, g, w in zip('XYZ', got, ref)]
+                ans = ck.prove_batch(pre, goals, timeout=60)
+                if 'sat' in ans:
+                    extra = []
+                    if limbvars:
+                        # bit-vector-only query: limbs that satisfy the branch condition without being the representation of 1 (or 0)
+                        one = limbs(R % P)
+                        for nm_, lv0 in limbvars:
+                            if not nm_.endswith('z'):
+                                continue
+                            lowb = PolyLower(r)
+                            lowb.emit(p['pc'])
+                            lv, _ = ensure_vars(r, lowb, ['%s%d' % (nm_, j) for j in range(4)])
+                            q_ = '\n'.join([lowb.all()] + ['(assert n%d)' % c_ for c_ in p['pc']] + [
+                                '(assert (bvult (concat %s) %s))' % (' '.join(reversed(lv)), bvconst256(P)),
+                                '(assert (not (and %s)))' % ' '.join('(= %s (_ bv%d 64))' % (l, o_) for l, o_ in zip(lv, one)),
+                                '(assert (not (and %s)))' % ' '.join('(= %s (_ bv0 64))' % l for l in lv)])
+                            m, _ = smt.get_model(q_, lv, timeout=30)
+                            if m:
+                                sc = unlimbs([m[v] for v in lv]) * pow(R, -1, P) % P
+                                extra.append({'kind': 'el-scaled', 'a': '%064x' % (sc if nm_ == 'pz' else 1), 'b': '%064x' % (sc if nm_ == 'qz' else 1)})
+                    replay_battery('group:' + nm, '%s differs from the complete addition formula' % nm, extra)
     # Double
     r = R_['op1_2']
     ok = len(r.paths) == 1 and r.paths[0]['end'] == 'return'
